@@ -15,7 +15,8 @@ EXPLANATION = (
     "field of the per-stream state other than id/host/port/queue handles is freshly constructed in the stream "
     "constructor.")
 EXPLANATION_ADDED = 'R3 also decides necessity: with inhibit_rst=false every closing path of an established, not-finished stream queues a Reset.'
-EXPLANATION = EXPLANATION + " Added while testing against seeded changes: " + EXPLANATION_ADDED
+EXPLANATION_ADDED2 = " R1 also requires the dropped-flows consumer to close every notified flow irrespective of the slot's state."
+EXPLANATION = EXPLANATION + " Added while testing against seeded changes: " + EXPLANATION_ADDED + EXPLANATION_ADDED2
 ASSUMPTIONS = ["tokio mpsc unbounded send from Drop is non-blocking"]
 NOT_DECIDED = "absence of leaks over arbitrarily long histories (every way a slot leaves the map cleans it; whether every abandoned slot leaves the map depends on peer behaviour)"
 THOROUGH_CONFIGS = ["mux-nodefault", "mux-nohash"]
